@@ -51,7 +51,7 @@ def _rows_equal(ctx, a, b):
     return all(x is y or (not isinstance(x, Sym) and not isinstance(y, Sym) and x == y) for x, y in zip(a.reshape(-1), b.reshape(-1)))
 
 
-def body_stream(ctx, w, N):
+def body_stream(ctx, w, N, reset_at=None):
     with DRIVERS["KdqTreeStreaming"](ctx, window_size=w, dim=2) as drv:
         d = drv.det
         pers = drv.params["persistence"]
@@ -62,6 +62,12 @@ def body_stream(ctx, w, N):
         for i in range(N):
             if state == "drift":
                 epoch, run, crit, state = [], 0, None, None
+            if reset_at is not None and i == reset_at:
+                # an explicit reset() by the user starts a new epoch just like the automatic one
+                d.reset()
+                epoch, run, crit, state = [], 0, None, None
+                ctx.prove(d.drift_state is None and d.samples_since_reset == 0, "manual-reset-clears-state")
+                ctx.witness("manual-reset")
             nlog = len(drv.log)
             x = drv.step(i)
             epoch.append(x)
@@ -105,7 +111,7 @@ def body_stream(ctx, w, N):
                         ctx.witness("dip")
 
 
-def body_batch(ctx, N, set_ref):
+def body_batch(ctx, N, set_ref, reset_at=None):
     with DRIVERS["KdqTreeBatch"](ctx, dim=2, rows=2) as drv:
         d = drv.det
         ref = None
@@ -120,6 +126,10 @@ def body_batch(ctx, N, set_ref):
             ctx.prove(drv.crit_calls[-1][1] == len(R), "critical-value-sample-size-is-reference-size")
         prev = None
         for i in range(N):
+            if reset_at is not None and i == reset_at:
+                d.reset()
+                ref, crit, state = None, None, None  # the next batch builds a new reference on its own
+                ctx.witness("manual-reset")
             nlog = len(drv.log)
             ncrit = len(drv.crit_calls)
             x = drv.step(i)
@@ -220,6 +230,12 @@ def jobs(tier):
     for sr in (False, True):
         out.append(Job(f"batch-setref{int(sr)}", "checks.c09:body_batch", {"N": 5 if q else 6, "set_ref": sr},
                        expect=("drift", "after-drift"), opts={"validate": 1}))
+    # an explicit reset() at every position of a short history
+    for k in (1, 2, 3):
+        out.append(Job(f"stream-w2-reset{k}", "checks.c09:body_stream", {"w": 2, "N": k + 5, "reset_at": k},
+                       expect=("manual-reset", "reference-built"), opts={"validate": 1}))
+        out.append(Job(f"batch-reset{k}", "checks.c09:body_batch", {"N": k + 2, "set_ref": False, "reset_at": k},
+                       expect=("manual-reset",), opts={"validate": 1}))
     for counts, ss, boots, nsym in (([2, 1], 1, 2, 2), ([1, 0, 2], 2, 2, 2), ([3, 1, 0, 2], 2, 3 if q else 4, 1), ([1, 1], 3, 2, 2)):
         out.append(Job(f"critical-{''.join(map(str, counts))}-s{ss}-b{boots}", "checks.c09:body_critical",
                        {"ref_counts": counts, "sample_size": ss, "boots": boots, "nsym": nsym}, expect=("checked",),
